@@ -1,6 +1,15 @@
 # per-property claim texts used by mk_manifest.py
 NA = {}
 CLAIMS = {
+ 'C07': {
+  'technique': 'Coq proofs of the FFT roll / parity / shift / triple-ordering bookkeeping on generated code; one-hot spike correspondence and bracketing runs on the real PRV accountant',
+  'text': ('PARTIAL. Proved for the pieces generated from compose.py / domain.py / prvs.py: roll_alignment (for every composition count n >= 1 of either parity, every grid '
+           'half-size M and index k the rolled index is the one carrying n*t0 + k*dt), the aligned grid size is even, shifts of an n-fold self-composition add to n*shifts, the '
+           '(lower, estimate, upper) triple is ordered for any non-increasing find_epsilon, delta(eps) of a non-negative pmf is non-increasing. The real _compose_fourier / '
+           'compose_heterogeneous are run on one-hot pmfs (exact spike placement, both parities, shifts) and compared with the generated roll amount; bracketing is validated '
+           'against the Gaussian closed form at q = 1 and the RDP upper bound. Not proved: the truncation / discretisation / wrap-around error analysis (Gopi et al. 2021), scipy '
+           'FFT / convolution / quadrature.'),
+ },
  'C06': {
   'technique': 'Coq proofs over R on the generated RDP formulas (log-add, binomial moment series, RDP->DP conversion for finite distributions); kernel-checked interval certificates of the float values',
   'text': ('PARTIAL. Proved for the code generated from analysis/rdp.py: _log_add = ln(e^a+e^b); the integer-order log-moment is ln of the binomial moment series A_alpha; A_alpha >= 1; '
